@@ -8,7 +8,13 @@ package main
 
 import (
 	"context"
+	"fmt"
+	"io"
 	"sync"
+
+	"github.com/ipfs/boxo/files"
+	"github.com/ipfs/kubo/core/coreiface/options"
+	mh "github.com/multiformats/go-multihash"
 
 	"github.com/ipfs/boxo/path"
 	cid "github.com/ipfs/go-cid"
@@ -28,6 +34,7 @@ type BlockNet struct {
 	onPut func(p int, c cid.Cid)
 	// failGet, when set, may return an error for a Get.
 	failGet func(p int, c cid.Cid) error
+	files map[string][]byte
 	// NotFoundFast makes a Get of a block no peer holds fail at once instead of waiting.
 	NotFoundFast bool
 }
@@ -212,3 +219,49 @@ type fakeAPI struct {
 
 func (a *fakeAPI) Dag() coreiface.APIDagService { return a.dag }
 func (a *fakeAPI) Key() coreiface.KeyAPI        { return a.key }
+
+// ---- Unixfs (snapshots): files are kept whole, addressed by the sha2-256 of their bytes ----
+
+type fakeUnixfs struct {
+	coreiface.UnixfsAPI
+	net *BlockNet
+}
+
+func (u *fakeUnixfs) Add(ctx context.Context, n files.Node, _ ...options.UnixfsAddOption) (path.ImmutablePath, error) {
+	f, ok := n.(files.File)
+	if !ok {
+		return path.ImmutablePath{}, fmt.Errorf("fake unixfs: only plain files")
+	}
+	data, err := io.ReadAll(f)
+	if err != nil {
+		return path.ImmutablePath{}, err
+	}
+	h, err := mh.Sum(data, mh.SHA2_256, -1)
+	if err != nil {
+		return path.ImmutablePath{}, err
+	}
+	c := cid.NewCidV1(cid.Raw, h)
+	u.net.mu.Lock()
+	if u.net.files == nil {
+		u.net.files = map[string][]byte{}
+	}
+	u.net.files[c.String()] = data
+	u.net.mu.Unlock()
+	return path.FromCid(c), nil
+}
+
+func (u *fakeUnixfs) Get(ctx context.Context, p path.Path) (files.Node, error) {
+	segs := p.Segments()
+	if len(segs) < 2 {
+		return nil, fmt.Errorf("fake unixfs: bad path %s", p.String())
+	}
+	u.net.mu.Lock()
+	data, ok := u.net.files[segs[1]]
+	u.net.mu.Unlock()
+	if !ok {
+		return nil, fmt.Errorf("fake unixfs: %s not found", segs[1])
+	}
+	return files.NewBytesFile(data), nil
+}
+
+func (a *fakeAPI) Unixfs() coreiface.UnixfsAPI { return &fakeUnixfs{net: a.dag.net} }
